@@ -98,6 +98,8 @@ def run(ctx):
     tlc.cleanup(res.workdir)
     rnd = random.Random(ctx.seed * 97 + 3)
     subpixel_stage(ctx, rnd, quick)
+    from . import c02 as _c02
+    _c02.sliver_stage(ctx, rnd, 'C03', 40 if quick else 500)
     from regions._geometry import circular_overlap_grid, elliptical_overlap_grid
     U = 4 * m
     events, meta = [], []
